@@ -151,8 +151,8 @@ struct ArrTarget : Target {
     }
 
     void gen_steps(Plan& p, Rng& r, const std::string& tier) override {
-        std::vector<std::string> ops = {"ctor", "copy", "resize", "write", "read", "assign", "cast_kind", "cast_dtype", "destroy"};
-        std::vector<int> w = {4, 3, 10, 8, 2, 4, 2, 2, 1};
+        std::vector<std::string> ops = {"ctor", "copy", "resize", "write", "read", "assign", "cast_kind", "cast_dtype", "assign_foreign", "destroy"};
+        std::vector<int> w = {4, 3, 10, 8, 2, 4, 2, 2, (Tr::family == NDARRAY ? 0 : 3), 1};
         for (auto& x : w) if (r.chance(0.15)) x = 0;
         if (w[0] == 0) w[0] = 4;
         long nobj = 1 + (long)r.below(NOBJ); p.seti("nobj", nobj);
@@ -319,6 +319,26 @@ struct ArrTarget : Target {
             { Sut s; *obj(o) = *obj(src); } { Model tmp = model[src]; model[o] = tmp; }
             env->applied(op, on + "<-o" + std::to_string(src) + " " + shape_str(model[o].shape), true); env->interesting = true; if (src == o) probe("self_assign");
             return true;
+        }
+        if (op == "assign_foreign") {
+            // the legacy classes' templated operator=(const ndarray&): assignment from an array of ANOTHER class with the same shape
+            if constexpr (Tr::family == NDARRAY) return false;
+            else {
+                const Shape& sh = model[o].shape; size_t ne = prod(sh); if (ne == 0) return false;
+                std::vector<E> vals; { SimGuard g; for (size_t i = 0; i < ne; i++) vals.push_back(val(env->next_value())); }
+                if constexpr (Tr::family == LEGACY_FIXED) {
+                    using src_t = na::ndarray_t<nmtools_array<E, 12>, nmtools_tuple<meta::ct<(size_t)2>, meta::ct<(size_t)3>, meta::ct<(size_t)2>>>;
+                    Sut s; src_t tmp{}; for (size_t i = 0; i < ne; i++) { Shape idx = unravel(i, sh); tmp(idx[0], idx[1], idx[2]) = vals[i]; }
+                    a = std::move(tmp);
+                } else {
+                    using src_t = na::ndarray_t<std::vector<E>, std::vector<size_t>>;
+                    Sut s; src_t tmp{}; tmp.resize(sh); E* p = nm::data(tmp); for (size_t i = 0; i < ne; i++) p[i] = vals[i];
+                    a = tmp;
+                }
+                for (size_t i = 0; i < ne; i++) model[o].val[i] = vals[i];
+                env->applied(op, on + " " + shape_str(sh), true); env->interesting = true;
+                return true;
+            }
         }
         if (op == "cast_kind") { bool r = Tr::cast_kind(*this, o, (int)n); if (r) env->interesting = true; return r; }
         if (op == "cast_dtype") { bool r = Tr::cast_dtype(*this, o, (int)n); if (r) env->interesting = true; return r; }
